@@ -438,12 +438,35 @@ class TikzExtractor:
         return res
 
 
+CACHE = Path(__file__).resolve().parent / "cache"
+# status of the last extraction: "ok" or "unavailable: <why> (templates of the last readable source are used)"
+STATUS = {"C15": "ok"}
+
+
 def extract_tikz(repo=None):
-    """The templates of render/tikz.py as plain data (pieces are str or Hole)."""
+    """The templates of render/tikz.py as plain data (pieces are str or Hole).
+
+    The extractor is a symbolic execution of `get_tikz_definitions`, `render`, `_tikz_draw_fork`,
+    `_tikz_draw_branches` and `measure_nodes` AS THEY ARE WRITTEN; a refactoring of those functions (renamed helpers,
+    per-event emitters, a canvas class ...) can make it fail without the generated text changing at all.  That is not
+    a verdict: the templates of the last source the extractor could read (kept under harness/cache/) are used
+    instead, the evidence says so, and the byte-level tie of the C15 check then decides whether the refactored code
+    still writes text that is an instance of those templates."""
     repo = Path(repo or REPO)
     src = (repo / "src/superrec2/render/tikz.py").read_text()
     model_src = (repo / "src/superrec2/render/model.py").read_text()
-    return TikzExtractor(src, model_src).extract()
+    try:
+        data = TikzExtractor(src, model_src).extract()
+        STATUS["C15"] = "ok"
+        if repo.resolve() == Path("/repo") and CACHE.is_dir():
+            for name, text in (("tikz.py.txt", src), ("render_model.py.txt", model_src)):
+                if not (CACHE / name).exists() or (CACHE / name).read_text() != text:
+                    (CACHE / name).write_text(text)
+        return data
+    except Exception as e:  # noqa
+        STATUS["C15"] = (f"unavailable: the template extractor cannot read render/tikz.py any more "
+                         f"({type(e).__name__}: {str(e)[:120]}); templates of the last readable source are used")
+        return TikzExtractor((CACHE / "tikz.py.txt").read_text(), (CACHE / "render_model.py.txt").read_text()).extract()
 
 
 def tikz_json(data=None):
